@@ -99,6 +99,12 @@ def handmade_seeds() -> List[Dict[str, Any]]:
     g2.insert_block_and_control_blocks(g2.name_gen.new_block_name(block_names.SYNTH_HEAD), ["a", "b"], ["h1", "h2", "h3"])
     st = project(g2)
     out.append({"H": st["H"], "ng": st["ng"], "root": st["root"], "ord": st["ord"], "from": {"named": named2, "then": "insert_block_and_control_blocks(head, [a, b], [h1, h2, h3])"}})
+    # (c) a graph built on a generator that has already served another graph, with block names shaped like the names the primitives draw
+    # for their own assignment / head blocks: the blocks a primitive creates must not land on a block that is already there
+    named3 = {"0": ["synth_asign_block_0", "synth_asign_block_1"], "synth_asign_block_0": ["synth_head_block_0"], "synth_asign_block_1": ["y"],
+              "synth_head_block_0": ["z"], "y": ["z"], "z": []}
+    st = project(build_scfg(named3, used_generator=True))
+    out.append({"H": st["H"], "ng": st["ng"], "root": st["root"], "ord": st["ord"], "from": {"named": named3, "generator": "already used by another graph"}})
     return out
 
 
